@@ -8,6 +8,11 @@ CONSTANTS
   DV = 500
   DL = 0
   Period = 200
+  X0 = 0
+  Y0 = 0
+  Z0 = 0
+  Lats = {}
+  MaxLat = 0
   Bug = "none"
 INVARIANT NoViolation
 INVARIANT Ended
